@@ -329,3 +329,9 @@ package forkexec
 //@   ensures int(e) == 23 ==> result == "setrlimt"
 //@   ensures int(e) == 3 ==> result == "unshare_user_read"
 //@   ensures !(1 <= int(e) && int(e) <= 32) ==> result == "unknown"
+
+// the goroutine that picks up a late error of a self-stopping child really closes the read end it was handed
+// (this is the body behind the assumed hand-over at the `go` statement in syncWithChild)
+//@ func pkg/forkexec.syncWithChild$1 props C12
+//@   arith int
+//@   ensures FD.closed[p[0]]
